@@ -20,20 +20,25 @@ def target(c):
                                           bases=(betterproto.Message,), eq=False, repr=False)
         Child = dataclasses.make_dataclass("ChildHand", [("extra", List[int], betterproto.int32_field(3)), ("inner", Leaf, betterproto.message_field(4))],
                                            bases=(Base,), eq=False, repr=False)
-        Grand = dataclasses.make_dataclass("GrandHand", [("tail", str, betterproto.string_field(5))], bases=(Child,), eq=False, repr=False)
+        # (the names of the fields Grand adds do not survive camelCase -> snake_case: their JSON keys need Grand's own key table)
+        Grand = dataclasses.make_dataclass("GrandHand", [("tail", str, betterproto.string_field(5)), ("x_y_z", int, betterproto.int32_field(6)), ("address_line_2", str, betterproto.string_field(7))],
+                                           bases=(Child,), eq=False, repr=False)
         Plain = type("PlainHand", (Base,), {"hello": lambda self: "hi"})
-        return Base, Child, Grand, Plain
+        # a subclass that re-declares BOTH inherited fields - same names, same numbers - as members of one oneof group
+        Regroup = dataclasses.make_dataclass("RegroupHand", [("i", int, betterproto.int32_field(1, group="g")), ("s", str, betterproto.string_field(2, group="g"))],
+                                             bases=(Base,), eq=False, repr=False)
+        return Base, Child, Grand, Plain, Regroup
 
-    ORDERS = ["base_first", "child_first", "grand_first", "plain_first"]
+    ORDERS = ["base_first", "child_first", "grand_first", "plain_first", "regroup_first"]
 
     def cases():
         for order in ORDERS:
-            for first_op in ("bytes", "parse", "to_dict", "construct_only", "len", "dump_delimited"):
+            for first_op in ("bytes", "parse", "to_dict", "construct_only", "len", "dump_delimited", "from_dict", "from_json", "which_one_of"):
                 yield {"order": order, "first_op": first_op}
 
     def ev(case):
-        Base, Child, Grand, Plain = fresh_classes()
-        first = {"base_first": Base, "child_first": Child, "grand_first": Grand, "plain_first": Plain}[case["order"]]
+        Base, Child, Grand, Plain, Regroup = fresh_classes()
+        first = {"base_first": Base, "child_first": Child, "grand_first": Grand, "plain_first": Plain, "regroup_first": Regroup}[case["order"]]
         fails = []
 
         def bad(cl, d):
@@ -53,12 +58,42 @@ def target(c):
                 from io import BytesIO
 
                 guard("first_dump", first(i=1).dump, BytesIO(), betterproto.SIZE_DELIMITED)
+            elif case["first_op"] == "from_dict":
+                guard("first_from_dict", first().from_dict, {"i": 1})
+            elif case["first_op"] == "from_json":
+                guard("first_from_json", first().from_json, '{"s": "j"}')
+            elif case["first_op"] == "which_one_of":
+                guard("first_which_one_of", betterproto.which_one_of, first(i=1), "g") if first is Regroup else guard("first_is_set", first(i=1).is_set, "i")
             else:
                 guard("first_construct", first)
+            # the re-grouped subclass: one member at a time, whatever was used first (judged by ks.LeafPick)
+            for how in ("ctor_then_assign", "parse_both", "from_dict"):
+                if how == "ctor_then_assign":
+                    rg = guard("regroup_ctor", Regroup, i=5)
+                    guard("regroup_assign", setattr, rg, "s", "x")
+                elif how == "parse_both":
+                    rg = guard("regroup_parse", Regroup().parse, b"\x08\x05\x12\x01x")
+                else:
+                    rg = guard("regroup_from_dict", Regroup().from_dict, {"i": 5})
+                    guard("regroup_assign2", setattr, rg, "s", "x")
+                sel = guard("regroup_which", betterproto.which_one_of, rg, "g")
+                if sel != ("s", "x"):
+                    bad("regrouped_subclass_selection", f"{how}: which_one_of -> {sel!r}, want ('s', 'x')")
+                try:
+                    rg.i
+                    bad("regrouped_subclass_other_member_readable", f"{how}: i is readable while s is selected")
+                except AttributeError:
+                    pass
+                rb = guard("regroup_bytes", bytes, rg)
+                rr = c.rf("LeafPick").FromString(rb)
+                if rb != b"\x12\x01x" or rr.WhichOneof("g") != "s":
+                    bad("regrouped_subclass_encoding", f"{how}: bytes {rb.hex()}, the reference sees {rr.WhichOneof('g')!r}")
+                if guard("regroup_to_dict", rg.to_dict) != {"s": "x"}:
+                    bad("regrouped_subclass_to_dict", f"{how}: {rg.to_dict()!r}")
             objs = [
                 (Base, Base(i=-3, s="b"), "Leaf", {"i": -3, "s": "b"}),
                 (Child, Child(i=5, s="x", extra=[1, -2], inner=Leaf(i=7)), "LeafPlus", {"i": 5, "s": "x", "extra": [1, -2], "inner": {"i": 7}}),
-                (Grand, Grand(i=6, extra=[9], tail="t"), "LeafPlus", {"i": 6, "extra": [9], "tail": "t"}),
+                (Grand, Grand(i=6, extra=[9], tail="t", x_y_z=4, address_line_2="a2"), "LeafPlus", {"i": 6, "extra": [9], "tail": "t", "x_y_z": 4, "address_line_2": "a2"}),
                 (Plain, Plain(i=8, s="p"), "Leaf", {"i": 8, "s": "p"}),
             ]
             from google.protobuf import json_format
@@ -86,6 +121,15 @@ def target(c):
                 m3 = guard("from_dict", cls().from_dict, d)
                 if (m3 == m) is not True:
                     bad("subclass_from_dict", f"{cls.__name__}: {m3!r} want {m!r}")
+                # the default (camelCase) keys, as a dict and as JSON text, through both forms of from_dict
+                dc = guard("to_dict_camel", m.to_dict)
+                for form, fn in (("instance", cls().from_dict), ("class", cls.from_dict)):
+                    m4 = guard("from_dict_camel", fn, dc)
+                    if (m4 == m) is not True:
+                        bad("subclass_from_dict_camel", f"{cls.__name__} ({form}): {dc!r} -> {m4!r} want {m!r}")
+                m5 = guard("from_json", cls().from_json, guard("to_json", m.to_json))
+                if (m5 == m) is not True:
+                    bad("subclass_from_json", f"{cls.__name__}: {m5!r} want {m!r}")
                 import copy
                 import pickle
 
